@@ -183,7 +183,7 @@ pub fn scenario(g: &mut G, ctx: &RunCtx) -> RunReport {
     let url0 = gr.nodes[0].url.clone();
     let no_proxy2: Vec<String> = no_proxy.iter().map(|s| s.to_string()).collect();
     let out = sim.run(|| {
-        let mut rb = attohttpc::RequestBuilder::new(attohttpc::Method::from_bytes(plan.method.as_bytes()).unwrap(), &url0);
+        let mut rb = plan.new_builder(&url0);
         let mut pb = attohttpc::ProxySettings::builder();
         if use_proxy {
             let pu = url::Url::parse(&format!("http://{}:{}", PROXY_HOST, PROXY_PORT)).unwrap();
